@@ -331,11 +331,11 @@ var bigMethods = []bigMethod{
 	query("Bytes/FillBytes/Bits",
 		func(z *apd.BigInt, p []*apd.BigInt, a *bigArgs) string {
 			n := (z.BitLen() + 7) / 8
-			return fmt.Sprintf("%x %x %x", z.Bytes(), z.FillBytes(make([]byte, n+a.i%5)), z.Bits())
+			return fmt.Sprintf("%x %x %x", z.Bytes(), z.FillBytes(dirtyBuf(n+a.i%5)), z.Bits())
 		},
 		func(z *big.Int, m []*big.Int, a *bigArgs) string {
 			n := (z.BitLen() + 7) / 8
-			return fmt.Sprintf("%x %x %x", z.Bytes(), z.FillBytes(make([]byte, n+a.i%5)), z.Bits())
+			return fmt.Sprintf("%x %x %x", z.Bytes(), z.FillBytes(dirtyBuf(n+a.i%5)), z.Bits())
 		}),
 	query("String/Text/Append",
 		func(z *apd.BigInt, p []*apd.BigInt, a *bigArgs) string {
@@ -1021,4 +1021,13 @@ func runC16(r *mon.Run) {
 	for _, k := range []string{"bigint-repr/heap", "bigint-repr/inline", "bigint-repr/inline-neg"} {
 		r.Require(k, 1000)
 	}
+}
+
+// dirtyBuf returns a buffer of n bytes that a caller has used before.
+func dirtyBuf(n int) []byte {
+	b := make([]byte, n)
+	for i := range b {
+		b[i] = 0xde - byte(i)
+	}
+	return b
 }
